@@ -176,8 +176,13 @@ void EpollFdEvent::OnEventCallback(uint32_t events, void *obj)
 
     //! 要先复制一份，因为在for中很可能会改动到d->fd_events，引起迭代器失效问题
     auto tmp = d->fd_events;
-    for (auto event : tmp)
-        event->onEvent(tbox_events);
+    for (auto event : tmp) {
+        //! 前面的回调可能已经disable()或销毁了该事件，只回调仍在列表中的事件
+        //! (an earlier callback may have disabled or deleted this event: only call those still enabled)
+        auto &curr = d->fd_events;
+        if (std::find(curr.begin(), curr.end(), event) != curr.end())
+            event->onEvent(tbox_events);
+    }
 
     if (events)
         LogWarn("unhandle events:%08X, fd:%d", events, d->fd);
